@@ -80,11 +80,11 @@ func c02Drain(it sql.RowIter) ([]int64, bool) {
 func c02SetOp(tag string, except bool) {
 	// (measured: with 3 rows on both sides two of the final queries of EXCEPT ALL stay undecided at 90 s;
 	// 4 on both sides left 17 undecided)
-	nl := nd.IntRange(tag+".nl", 0, 3)
-	nrMax := nd.Bound(2, 3)
+	nlMax, nrMax := 3, nd.Bound(2, 3)
 	if except {
-		nrMax = 2
+		nlMax, nrMax = nd.Bound(2, 3), 2
 	}
+	nl := nd.IntRange(tag+".nl", 0, nlMax)
 	nr := nd.IntRange(tag+".nr", 0, nrMax)
 	lrows, lv := c02Side(tag+".l", nl)
 	rrows, rv := c02Side(tag+".r", nr)
